@@ -13,6 +13,7 @@ _ARITH_FULL = {m: {"shims": ("math", "struct")} for m in (
     "xdsl.transforms.canonicalize", "xdsl.interpreter")}
 
 CHECKS = {
+    "C11": {"module": "vx.checks.c11", "instrument": {"full": {"xdsl.dialects.builtin": {"shims": ("math", "struct")}}}, "maxtasksperchild": 4},
     "C02": {"module": "vx.checks.c02", "instrument": {"full": _ARITH_FULL}, "maxtasksperchild": 8},
     "C03": {"module": "vx.checks.c03", "instrument": {"identity": "all", "full": {"xdsl.ir.core": {"shims": ()}, "xdsl.transforms.common_subexpression_elimination": {}, "xdsl.dialects.builtin": {"shims": ("math", "struct")}}}, "maxtasksperchild": 8},
     "C01": {"module": "vx.checks.c01", "instrument": {"identity": "all", "full": {"xdsl.ir.core": {"shims": ()}, "xdsl.rewriter": {"shims": ()}}}, "maxtasksperchild": 4},
